@@ -68,3 +68,8 @@ chk("C19","model_checking",
  "(1) Dereference/Deliver x recording signer and real httpsig RSA-SHA256/RSA-SHA512/HMAC-SHA256 signers x 4 header lists x 3 agents x 5 URLs x 4 payloads: headers at signing time, key, key id, body bytes, nothing altered until Do, signatures verified with httpsig.NewVerifier on what the client received; (2) every status 100..599 and transport / signer errors; (3) BatchDeliver under a cooperative scheduler, with pub/transport.go rebuilt through a build-time overlay that routes its mutexes, WaitGroup, go statements and channel operations through a shim: recipients 0..3 (with a duplicate) x every per-recipient outcome combination, and concurrent batches + Dereference on one transport value; all interleavings with <= 2 (thorough 3) preemptions; oracle: no deadlock, one attempt per entry, error iff a failure and naming each, signer calls never overlap; (4) supplementary free-running -race pass with real stateful signers and 64-recipient overlapping batches.",
  "Trusted: the overlay rewriter (go/ast; falls back with exhaustive:false if the file uses an unsupported construct), the shim's model of sync.Mutex / WaitGroup / buffered channels; interleaving granularity = synchronisation operations, SignRequest and Do.",
  "stateless model checking of the implementation under a controlled scheduler (preemption-bounded schedule enumeration) + exhaustive request product","DESIGN.md 3 C19")
+
+chk("C15","model_checking",
+ "(1) astool built from the current tree regenerates streams/: same file set, same Go syntax trees (go/parser + go/printer); (2) astool is rebuilt through a build-time overlay that routes every range over a map (68 static sites, found with go/types) through a shim iterating in an explorer-chosen order: baseline ASC must equal the plain run, then global DESC, global ROTATE and DESC at each single site (thorough: ROTATE per site and all pairs of sites under DESC) must give byte-identical output; (3) extension vocabularies from a shape family are generated under ASC/DESC/ROTATE (must succeed and agree), compiled, and the C13, C12, C01, C14 (thorough C18) drivers are rebuilt against the generated tree with a binding table from the extended ontology and must pass.",
+ "Trusted: the map-order rewriter and shim (reports unorderable / vacuous sites), syntax-tree comparison. 'Any well-formed extension' is replaced by the stated shape family; orders other than the enumerated policies are not covered.",
+ "exhaustive enumeration of owned map-iteration-order policies (deviation-bounded) over the real generator + translation checks of generated extensions","DESIGN.md 3 C15","onto")
